@@ -24,6 +24,9 @@ pub fn gen(seed: u64, tier: Tier) -> ScenarioSpec {
     spec.sink = gen::gen_sink(&mut rng, false);
     spec.opts = OptsSpec { skip_frames: true, compute_hash: rng.chance(1, 2) };
     spec.compression = *rng.pick(&[Compression::None, Compression::Lz4, Compression::Zstd]);
+    if rng.chance(1, 8) {
+        spec.knobs.insert("prelude".into(), *rng.pick(&[1i64, 3]));
+    }
     spec
 }
 
@@ -76,6 +79,7 @@ pub fn run(spec: &ScenarioSpec, ctx: &mut Ctx) -> Result<(), Violation> {
     ctx.shape("embed", (spec.stream.prefix > 0) as u64 | ((spec.stream.suffix > 0) as u64) << 1);
     ctx.probe(if spec.opts.compute_hash { "skip with hashing (copy path)" } else { "skip without hashing (seek path)" });
     let edges = m.edges();
+    prelude(spec.knob("prelude"), spec.seed, &m, ctx);
     // full read, plain stream
     let full = expect_ok(P, "slippi::read(full)", read_slp_noopts(&m.bytes, &StreamSpec::default(), &edges).res)?;
     // skip read under the scheduled stream
